@@ -16,7 +16,9 @@ vars == <<ctx, req>>
 
 Names == <<"a", "b", "c", "n", "zz">>
 Contexts == {"root", "prop", "item", "def", "defitem", "allOfReqOnly", "allOfSplit", "allOfRef", "anyOf",
-             "mapprop", "mappropitem", "allOfNested", "addltyped", "addltrue", "addltrueitem", "allOfRefCross"}
+             "mapprop", "mappropitem", "allOfNested", "addltyped", "addltrue", "addltrueitem", "allOfRefCross", "untyped", "untypeddef"}
+\* "untyped" / "untypeddef": the object schema (inline / as a definition) states NO type: its properties and its
+\* required list still apply to values that are objects
 \* "allOfRefCross": the $ref branch lists in ITS `required` names that only the other branch declares
 \* "addltyped" / "addltrue" / "addltrueitem": the object also collects additional properties (typed values, `true`,
 \* and `true` in a definition used as array items): the required check must stay next to the AdditionalProperties field
@@ -110,6 +112,9 @@ Unit(c, r) ==
                       schema |-> xprop([allOf |-> <<RefN, Obj(SubSeq(PropsO, 3, 4), <<>>)>>]),
                       defs |-> <<[k |-> "N", s |-> Obj(SubSeq(PropsO, 1, 2), r)]>>,
                       docs |-> docsX(Wrap)]
+    [] c = "untyped" -> [prop |-> "C04", ctx |-> c, schema |-> xprop([f \in DOMAIN O(r) \ {"type"} |-> O(r)[f]]), defs |-> <<>>, docs |-> docsX(Wrap)]
+    [] c = "untypeddef" -> [prop |-> "C04", ctx |-> c, schema |-> xprop(RefN), defs |-> <<[k |-> "N", s |-> [f \in DOMAIN O(r) \ {"type"} |-> O(r)[f]]]>>,
+                      docs |-> docsX(Wrap)]
     [] c = "mapprop" -> [prop |-> "C04", ctx |-> c, schema |-> OM(r), defs |-> <<>>, docs |-> MapDocs]
     [] c = "mappropitem" -> [prop |-> "C04", ctx |-> c, schema |-> xprop(("type" :> <<"array">>) @@ ("items" :> OM(r))), defs |-> <<>>,
                       docs |-> [i \in DOMAIN MapDocs |-> Wrap(JArr(<<MapDocs[i]>>))]]
@@ -149,6 +154,7 @@ ImplAccepts(unit, d, D) ==
                                  /\ \A k \in ObjKeys(x) \ PropNames(O(r)) : ObjVal(x, k).t \in {"str", "null"}   \* mapstructure into map[string]string
     [] unit.ctx = "addltrue" -> ImplStruct(env, OA(r, ATrue), x, D)
     [] unit.ctx = "addltrueitem" -> \A i \in DOMAIN x.a : ImplStruct(env, OA(r, ATrue), x.a[i], D)
+    [] unit.ctx \in {"untyped", "untypeddef"} -> "UntypedPropertiesUnvalidated" \in D \/ ImplStruct(env, O(r), x, D)   \* interface{} field
     [] unit.ctx = "mapprop" -> ImplStruct(env, OM(r), x, D)
     [] unit.ctx = "mappropitem" -> \A i \in DOMAIN x.a : ImplStruct(env, OM(r), x.a[i], D)
     [] unit.ctx = "allOfNested" -> ImplAllOf(env, unit.schema.properties[1].s.allOf, x, D)
